@@ -89,6 +89,7 @@ package keeper
 //@ define ubal(s, n) = sum j in [0, n) :: s[j].Balance
 
 //@ func (k Keeper).deductUnbondingDelegation(ctx, delAddr, valAddr, tokens0) (left, err)
+//@ uses sum_congruence
 //@ requires [amount_non_negative] tokens0 >= 0
 //@ modifies bank.bal
 //@ ensures [left_within_request] err == nil ==> 0 <= left && left <= tokens0
